@@ -155,11 +155,14 @@ def summarize(conn, out):
 # ---------------------------------------------------------------------------
 # path 1: async generators over (optionally scripted) sockets
 # ---------------------------------------------------------------------------
-def play_gen(name, scripts=None, order=None, mitm=None):
+def play_gen(name, scripts=None, order=None, mitm=None, prepare=None,
+             tweak=None):
     client, server, f = build(name)
+    if tweak is not None:
+        tweak(client, server)
     DET.reseed("C14", name)
     p = sc.connect(client, server, scripts=scripts, order=order, mitm=mitm,
-                   max_steps=400000)
+                   max_steps=400000, prepare=prepare)
     res = {"c": summarize(p.c, p.co), "s": summarize(p.s, p.so),
            "steps": []}
     if p.verdict in ("spin", "budget"):
@@ -569,6 +572,8 @@ def check(case):
         res = play_threads(name, {k: (v[0], v[1]) for k, v in sz.items()})
     elif path == "reframe":
         return check_reframe(case, base, labels)
+    elif path == "recsize":
+        return check_recsize(case, base, labels)
     else:
         raise HarnessError(path)
     if scripts:
@@ -594,6 +599,58 @@ def check(case):
                    "baseline %r  vs  %r; case=%r" % (d[1], d[2], case),
                    nt=nt, labels=labels)
     return good(nt=nt, labels=labels)
+
+
+def check_recsize(case, base, labels):
+    """The *sender's* own fragmentation (user-set recordSize, or a
+    negotiated record_size_limit) must not change what happens either:
+    same outcome, same negotiated view, same data."""
+    name, side, n = case["sc"], case["side"], case["n"]
+    labels = labels + ["side=" + side]
+    if case.get("rsl"):
+        if not 64 <= n <= 2 ** 14 + 1:
+            return good(nt=False, labels=labels)
+
+        def tweak(client, server):
+            if side in "cb":
+                client["settings"].record_size_limit = n
+            if side in "sb":
+                server["settings"].record_size_limit = n
+        # a reference run with the extension present but a limit too large
+        # to matter gives the comparable outcome
+        def tweak0(client, server):
+            if side in "cb":
+                client["settings"].record_size_limit = 2 ** 14
+            if side in "sb":
+                server["settings"].record_size_limit = 2 ** 14
+        base, _ = play_gen(name, tweak=tweak0)
+        res, p = play_gen(name, tweak=tweak)
+        keys = ["c", "s", "steps"]
+        if side != "b":
+            # only one side advertises: nothing is negotiated; views still
+            # equal to the big-limit run
+            pass
+        b2 = {"c": {"state": base["c"]["state"]},
+              "s": {"state": base["s"]["state"]}, "steps": base["steps"]}
+        r2 = {"c": {"state": res["c"]["state"]},
+              "s": {"state": res["s"]["state"]}, "steps": res["steps"]}
+        d = compare(b2, r2, keys)
+        what = "record_size_limit"
+    else:
+        def prepare(cc, scn):
+            if side in "cb":
+                cc.recordSize = n
+            if side in "sb":
+                scn.recordSize = n
+        res, p = play_gen(name, prepare=prepare)
+        d = compare(base, res, ["c", "s", "steps"])
+        what = "recordSize"
+    if d:
+        return bad("outcome-depends-on-sender-fragmentation:%s:%s:%s" % (
+            name, what, d[0]),
+            "baseline %r vs %r; case=%r" % (d[1], d[2], case),
+            labels=labels)
+    return good(labels=labels + ["frag=" + what])
 
 
 def check_reframe(case, base, labels):
@@ -666,8 +723,15 @@ def sched(draw):
 def cases(draw, tier):
     name = draw(st.sampled_from(SCEN_NAMES))
     path = draw(st.sampled_from(["gen", "gen", "gen", "asm", "thread",
-                                 "reframe"]))
+                                 "reframe", "recsize"]))
     c = {"sc": name, "path": path}
+    if path == "recsize":
+        c["side"] = draw(st.sampled_from(["c", "s", "b"]))
+        c["rsl"] = draw(st.booleans())
+        c["n"] = draw(st.integers(64, 600)) if c["rsl"] else \
+            draw(st.one_of(st.integers(1, 600), st.sampled_from(
+                [2 ** 14 - 1, 2 ** 14])))
+        return c
     if path in ("gen", "asm"):
         c["sched"] = draw(sched())
         if path == "gen":
@@ -712,3 +776,18 @@ def explicit(tier, seed):
         yield {"sc": name, "path": "reframe", "mode": "bytes"}
         yield {"sc": name, "path": "reframe", "mode": "cuts",
                "cuts": [3, 4, 5, 70 + seed]}
+    # sender-side fragmentation sweep: every record size a handshake message
+    # length could be a multiple of
+    sweep = ["tls13", "tls12-ecdhe", "tls10-cbc"] if tier == "quick" else \
+        [n for n in SCEN_NAMES if not n.startswith("fail")]
+    for name in sweep:
+        for n in range(4, 300 if tier == "quick" else 700):
+            yield {"sc": name, "path": "recsize", "side": "cs"[n % 2],
+                   "n": n}
+            if tier == "thorough":
+                yield {"sc": name, "path": "recsize",
+                       "side": "cs"[(n + 1) % 2], "n": n}
+        if SCEN[name].get("v") in ("tls13", "tls12"):
+            for n in range(64, 260 if tier == "quick" else 700):
+                yield {"sc": name, "path": "recsize", "side": "b",
+                       "n": n, "rsl": True}
